@@ -110,6 +110,8 @@ class Swarm:
         self.kw_p = rng.choice([0.15, 0.3, 0.5])
         self.n_classes = rng.choice([0, 1, 2, 3, 4]) if self.on["Class"] else 0
         self.n_shared = rng.choice([0, 1, 2, 3]) if self.on["shared"] else 0
+        self.fmt_p = 0.15
+        self.tuple_p = 0.35
 
     def describe(self):
         return {
@@ -198,7 +200,7 @@ class WorldGen:
             kw["maxLength"] = rng.choice([1, 2, 3, 4, 6])
         if self.maybe(0.2):
             kw["pattern"] = rng.choice(PATTERNS)[0]
-        if self.sw.on["formats"] and self.maybe(0.15):
+        if self.sw.on["formats"] and self.maybe(self.sw.fmt_p):
             kw["format"] = rng.choice(FORMATS)
 
     def numeric_kw(self, kw, integer):
@@ -217,7 +219,7 @@ class WorldGen:
 
     def array_kw(self, kw, depth):
         rng = self.rng
-        if self.sw.on["tuple_items"] and rng.random() < 0.35:
+        if self.sw.on["tuple_items"] and rng.random() < self.sw.tuple_p:
             kw["items"] = [
                 self.element(depth + 1) for _ in range(rng.randint(1, 3))
             ]
@@ -400,6 +402,8 @@ class WorldGen:
         self.object_kw(kw, depth, props)
         self.common_kw(kw, "Object")
         entry = {"id": cid, "name": name, "base": base, "props": props, "kw": kw}
+        if base is None and rng.random() < 0.2:
+            entry["inline"] = True  # declared through Object.inline(...)
         self.world["classes"].append(entry)
         return entry
 
